@@ -1,4 +1,5 @@
 import GoLucene.Proofs.SqlText
+import GoLucene.Proofs.SqlWide
 /-
   C02 — the rendered SQL is one confined boolean expression; user text only in literals.
 
@@ -12,8 +13,24 @@ import GoLucene.Proofs.SqlText
   `render_parses_iff` is the exact form (the text is rejected precisely when the parser stack would overflow) and
   `need_depth` shows the depth hypothesis cannot be dropped.
 
-  Outside `cleanFilter` (fuzzy / boost: rendering fails; the shapes of the recorded findings; hand-built trees) the
-  confinement clause is decided by the executable specification `specC02` on every explored implementation output.
+  WIDE FORM (Proofs/SqlWide*.lean).  Confinement does not need the semantic exclusions of `cleanFilter`:
+  `confinedFilter` also admits every shape of the recorded C03 / C04 findings (exclusive / open / quoted-* string
+  ranges, any finite float bounds, mixed-kind bounds, ints beyond int64, `[* TO *]`, LIKE with `%` `_` and
+  metacharacters, field names of any length, numbers or strings in field position, bare terms as whole query or
+  operand).  `render_parses_wide`: PostgreSQL reads the rendered text as exactly the one predicate `toAstW e`
+  (`toAstW_extends`: it is `toAst e` on the clean fragment); `confined_cols_consts`: its columns are fields and its
+  constants are values of the query (verbatim, LIKE translation, or the %d / %.2f text of what strconv reads from the
+  value).  The PARAMETERIZED text is covered too: `render_parses_param` (PostgreSQL reads it as `toAstP e` with
+  placeholders `$1 … $n` in order, n = number of parameters: `param_numbers`), `param_cols_consts` (the only constants
+  are placeholders, `'*'` and 0; placeholders occur only in value positions; every parameter is a value of the query).
+  Rendering fails on fuzzy / boost (`render_fuzzy`, `render_boost`) and on a comma in a range bound (`range_comma_err`),
+  so C02 is vacuous there.  Refutations (hand-built / decoded trees only — the parser never builds them since fix F4):
+  non-finite floats print as bare words (`nan_not_confined`, `inf_not_confined`), a raw NUL string value skips the
+  literal check (`raw_nul_rejected`), an empty IN list is a syntax error (`empty_in_rejected`).
+
+  Still outside a theorem: hand-built trees with an expression in field or value position, columns as patterns or
+  bounds, nesting beyond PostgreSQL's stack (use the exact `_iff` forms) — decided by the executable specification
+  `specC02` on every explored implementation output.
 -/
 namespace GoLucene.C02
 open GoLucene.SqlMeaning GoLucene.SqlText GoLucene.Sql
@@ -28,5 +45,23 @@ theorem user_text_only_in_literals (e : Expr) (t : Bytes) (a : Ast) (hc : cleanF
     (hr : render pgFns e = .ok t) (hp : parseSql t = some a) :
     (∀ c ∈ cols a, Prim.col c ∈ leaves e) ∧ (∀ k ∈ consts a, ∃ q ∈ leaves e, k ∈ rendersOf q) :=
   parsed_cols_consts e t a hc ht hr hp
+
+/-- WIDE: the same for every tree of the confined fragment (all recorded finding shapes included) -/
+theorem rendered_text_is_one_predicate_wide (e : Expr) (t : Bytes) (hc : SqlWide.confinedFilter e = true)
+    (ht : SqlWide.textWide e = true) (hd : depthOK e = true) (hr : render pgFns e = .ok t) :
+    parseSql t = SqlWide.toAstW e :=
+  SqlWide.render_parses_wide e t hc ht hd hr
+
+theorem user_text_only_in_literals_wide (e : Expr) (t : Bytes) (a : Ast) (hc : SqlWide.confinedFilter e = true)
+    (ht : SqlWide.textWide e = true) (hr : render pgFns e = .ok t) (hp : parseSql t = some a) :
+    (∀ c ∈ cols a, Prim.col c ∈ leaves e) ∧ (∀ k ∈ consts a, ∃ q ∈ leaves e, k ∈ SqlWide.rendersOfW q) :=
+  SqlWide.confined_cols_consts e t a hc ht hr hp
+
+/-- the PARAMETERIZED text: one predicate with placeholders $1 … $n, n = number of parameters -/
+theorem parameterized_text_is_one_predicate (e : Expr) (sqlP : Bytes) (ps : List Prim)
+    (hc : SqlWide.confinedParam e = true) (ht : SqlWide.textParam e = true) (hd : depthOK e = true)
+    (hr : renderParam pgFns e = .ok (sqlP, ps)) :
+    parseSql sqlP = SqlWide.toAstP e ∧ SqlWide.paramsP e = some ps :=
+  SqlWide.render_parses_param e sqlP ps hc ht hd hr
 
 end GoLucene.C02
